@@ -159,7 +159,7 @@ GCLASSES = ["loguniform", "equal", "dominant", "near-equal", "sorted-desc", "sva
 
 def case_direct(ctx, rng, idx):
     n = int(rng.integers(1, 17))
-    if idx % 16 == 5:
+    if idx % 16 == 5 and idx < 64000:          # (at most 4000 such vectors per run)
         # many parallel channels (all subcarriers x streams of a wide-band link)
         n = int(rng.choice([64, 128, 129, 200, 512, 1000]))
     gclass = GCLASSES[idx % len(GCLASSES)]
